@@ -240,6 +240,8 @@ inline bool operator<(const Float &a, const Float &b) { return cmp(a, b, 0); }
 inline bool operator<=(const Float &a, const Float &b) { return cmp(a, b, 1); }
 inline bool operator>(const Float &a, const Float &b) { return cmp(a, b, 2); }
 inline bool operator>=(const Float &a, const Float &b) { return cmp(a, b, 3); }
+inline bool operator==(const Float &a, const Float &b) { return cmp(a, b, 1) && cmp(a, b, 3); }     // two decisions: <= and >=
+inline bool operator!=(const Float &a, const Float &b) { return !(a == b); }
 }  // namespace sym
 
 namespace std {
